@@ -8,9 +8,10 @@ func init() {
 		ruleC06Atomic, ruleC05Task, ruleC05RunTask, ruleEvict)
 	register("C09",
 		"Decides that every explicit write/compute/invalidate/eviction clears the key's in-flight load record inside the same bucket-locked computation that changes the mapping (C09.clear) and that the load installer installs or removes only on paths where, inside that computation, its record was still registered (C09.guard = the installer's decision table), so a superseded load cannot overwrite a newer write. "+
+			"The installer's own-record test is an identity test inside the in-flight table's computation (C08.getorcreate: records are removed only by pointer identity). "+
 			"NOT decided: the schedule quantifier itself (atomicity of those steps is C15).",
 		[]string{"hashmap.Map.Compute is atomic per key (C15.once/rmw)"},
-		ruleC09Clear, ruleC09Guard)
+		ruleC09Clear, ruleC09Guard, ruleC08GetOrCreate)
 	register("C20",
 		"Decides the per-path counting facts behind exact statistics: the lookup-count table per operation with hit <=> live entry (C20.lookup), one load record per loader dispatch and eviction records only for removals that happened (C20.load / C20.evict). NOT decided: exactness of the striped adder under contention.",
 		[]string{"stats.Recorder methods only add"},
@@ -56,7 +57,8 @@ func init() {
 		ruleC05Task, ruleC05RunTask, rulePolicy, ruleC05Moves, ruleDeque, ruleDequeShape, ruleEvict, ruleC05LockCtx, ruleC05LockRead, ruleC14After, ruleC16Consume)
 	register("C07",
 		"Decides the structural clauses of 'entries disappear only for a sanctioned, truthful reason': evictions for size happen only in iterations guarded by weightedSize > maximum and never hit zero-weight entries (C04.loop, C04.zero); window transfers only above the window maximum (C07.window); the eviction callback reports Expiration exactly when the victim is expired at its time and Overflow otherwise, and only the policy (which exists only with a size bound) and the timer wheel call it (C07.causeflow); the wheel expires only on deadline < wheel time and passes that time (C13.nodrop). "+
+			"A deadline that has passed is the entry's own: a write over an absent or expired key takes the create hook and a fresh clock sample (C12.hook), so no entry is born with its predecessor's expired deadline. "+
 			"NOT decided: 'total weight exceeded the maximum at that moment' as a numeric fact.",
 		[]string{"the running totals are right (C04.acct decides who writes them)"},
-		rulePolicy, ruleEvict, ruleC07CauseFlow, ruleC13NoDrop)
+		rulePolicy, ruleEvict, ruleC07CauseFlow, ruleC13NoDrop, ruleC12Hooks)
 }
